@@ -305,10 +305,16 @@ def explore(tier, seed, model_ok=True, focus=False):
     # closed composition proxy_dex x pair x two locked farms x energy factory (Model/ProxyClosed.v)
     from props import proxy_closed_common as pcc
     ex = pcc.merge(ex, pcc.explore_proxy_closed("C16", tier, seed, model_ok, focus))
+    # two intermediated pairs: per-pair backing, merges across pairs / farms must be refused (Model/ProxyMulti.v)
+    from props import proxy_multi_common as pmc
+    ex = pmc.merge(ex, pmc.explore_multi("C16", tier, seed, model_ok, focus))
     return ex
 
 
 def replay(data):
+    if data.get("replay", {}).get("system") == "proxy_multi":
+        from props import proxy_multi_common as pmc
+        return pmc.replay_multi(data)
     if data.get("replay", {}).get("system") == "proxy_closed":
         from props import proxy_closed_common as pcc
         return pcc.replay_proxy_closed(data)
